@@ -676,10 +676,7 @@ def check_c18(tier):
         srv = lsp.Server()
         try:
             srv.initialize(root)
-            if n % 2 == 0:
-                # the sibling is opened and asked first (its per-file view is computed before the edited document's)
-                srv.did_open(os.path.join(root, "test_sib.py"), SIB_18)
-                srv.pos_request("textDocument/completion", os.path.join(root, "test_sib.py"), 8, 20)
+
             if c["role"].startswith("inc_"):
                 # incomplete forms arise while typing: the document was valid a moment ago
                 valid_c = dict(c, role="def_line")
@@ -687,6 +684,12 @@ def check_c18(tier):
                 srv.did_change(tpath, text)
             else:
                 srv.did_open(tpath, text)
+            if n % 2 == 0:
+                # the sibling is asked FIRST, with no analysis between the two requests: whatever is computed per directory
+                # for the sibling's view must not leak into the edited document's
+                srv.did_open(os.path.join(root, "test_sib.py"), SIB_18)
+                srv.did_change(tpath, text, version=5)
+                srv.pos_request("textDocument/completion", os.path.join(root, "test_sib.py"), 8, 20)
             comp = srv.pos_request("textDocument/completion", tpath, line, col)
             items = comp if isinstance(comp, list) else (comp or {}).get("items", []) if comp else []
             return {"items": [{"label": i["label"], "sortText": i.get("sortText"), "edits": bool(i.get("additionalTextEdits"))} for i in items],
